@@ -236,6 +236,8 @@ pub struct Ctx {
     pub cur_stream: String,
     pub cur_case: u64,
     pub inconclusive: Vec<String>,
+    /// (counter, minimum) demands, evaluated by the driver on the merged counters
+    pub requirements: Vec<(String, u64)>,
 }
 
 impl Ctx {
@@ -264,6 +266,7 @@ impl Ctx {
             cur_stream: String::new(),
             cur_case: 0,
             inconclusive: Vec::new(),
+            requirements: Vec::new(),
         }
     }
     pub fn quick(&self) -> bool {
@@ -381,13 +384,7 @@ impl Ctx {
     }
     /// Demand a minimum number of observations of something, else the run is inconclusive.
     pub fn require(&mut self, key: &str, min: u64) {
-        if self.only.is_some() {
-            return;
-        }
-        let v = self.get(key);
-        if v < min {
-            self.inconclusive(format!("monitor observed too little: counter `{}` = {} < {}", key, v, min));
-        }
+        self.requirements.push((key.to_string(), min));
     }
 }
 
@@ -520,6 +517,7 @@ fn write_child_result(ctx: &Ctx, out: &Path) {
         "notes": ctx.notes,
         "info": ctx.info,
         "inconclusive": ctx.inconclusive,
+        "requirements": ctx.requirements.iter().map(|(k, m)| json!([k, m])).collect::<Vec<_>>(),
     });
     std::fs::write(out, serde_json::to_vec(&v).unwrap()).unwrap();
     let mut hb = Vec::with_capacity(ctx.distinct.len() * 8);
@@ -646,6 +644,14 @@ pub fn driver_main(prop: &Prop, opts: &DriverOpts) -> i32 {
         merged.profile = "driver".into();
         merged.violation(&kind, detail, Value::Null);
     }
+    if opts.replay.is_none() {
+        for (k, min) in merged.requirements.clone() {
+            let v = merged.get(&k);
+            if v < min {
+                merged.inconclusive(format!("monitor observed too little: counter `{}` = {} < {}", k, v, min));
+            }
+        }
+    }
     // evidence
     let wall = t0.elapsed().as_secs_f64();
     let distinct = merged.distinct.len() as u64 + merged.distinct_enum;
@@ -770,6 +776,14 @@ fn merge_child(m: &mut Ctx, v: &Value, out: &Path) {
     if let Some(a) = v["inconclusive"].as_array() {
         for s in a {
             m.inconclusive.push(s.as_str().unwrap_or("").to_string());
+        }
+    }
+    if let Some(a) = v["requirements"].as_array() {
+        for r in a {
+            let k = (r[0].as_str().unwrap_or("").to_string(), r[1].as_u64().unwrap_or(0));
+            if !m.requirements.contains(&k) {
+                m.requirements.push(k);
+            }
         }
     }
     m.n_violations += v["n_violations"].as_u64().unwrap_or(0);
